@@ -2,4 +2,4 @@
 From Coq Require Import Extraction ExtrOcamlBasic.
 From GrolModel Require Import Ast RefValues RefEval.
 Extraction Language OCaml.
-Extraction "refeval_model.ml" eval_program init_state bits_of_fl has_opaque node_tok.
+Extraction "refeval_model.ml" eval_program init_state bits_of_fl has_opaque node_tok printed.
